@@ -142,6 +142,22 @@ def check(ctx, run):
     lin = [e for e in res1["events"] if e["kind"] == "opaque_call" and isinstance(e["callee"], Sym) and e["callee"].name == "model"]
     ok2 = len(vin) == 1 and len(lin) == 1
     run.oblige("C03.R2", "compute_hedge", ok2, "one model application per branch; per-step inputs agree by R1")
+    # the model sees the features in DECLARED order in the step-by-step branch too (probe with the state-dependent feature first: a
+    # "static features first" optimisation that reorders the columns is invisible when prev_hedge happens to be last)
+    for order in (["PrevHedge", "Moneyness"], ["Moneyness", "PrevHedge"]):
+        ho = W.hedger(prog, [W.feature(c, **({"log": False} if c == "Moneyness" else {})) for c in order])
+        for rr in [r for r in interp.explore(ch, [W.option()], {}, self_obj=ho) if not r["raises"]]:
+            mc = [e for e in rr["events"] if e["kind"] == "opaque_call" and isinstance(e["callee"], Sym) and e["callee"].name == "model"]
+            arg = mc[0]["args"][0] if mc and mc[0]["args"] else None
+            parts = list(arg.args[0]) if isinstance(arg, Op) and arg.op == "cat" and isinstance(arg.args[0], (list, tuple)) else None
+            okord = parts is not None and len(parts) == 2
+            if okord:
+                is_prev = [any(isinstance(s_, Sym) and "prev_output" in s_.name for s_ in walk(p_)) for p_ in parts]
+                okord = is_prev == [c == "PrevHedge" for c in order]
+            run.oblige("C03.R2", f"compute_hedge[{' , '.join(order)}]: the model input is cat of the features in declared order", okord, str(arg)[:120])
+            if not okord:
+                run.fail(Finding("C03.R2", ch.qualname, f"inputs {order}: model input {str(arg)[:160]}", "the step-by-step branch feeds the model the features in another order than declared (and than the all-at-once branch)",
+                                 file=str(prog.modules[ch.module].path), line=ch.node.lineno, case=",".join(order)))
     # ... and the same final column: both branches report, at the last time index, the position held over the last step (column T-2),
     # so the all-steps-at-once and the step-by-step hedge agree in every column
     from .c02 import last_column_is_copy
